@@ -91,7 +91,9 @@ func c18Case(r *fw.Rand, index string) fw.Case {
 	backup := func() {
 		flush()
 		mode := "full"
-		switch r.Intn(6) {
+		switch r.Intn(7) {
+		case 6:
+			mode = []string{"full+top", "import+top"}[r.Intn(2)]
 		case 0:
 			mode = "import"
 		case 1:
